@@ -739,6 +739,20 @@ pub fn eval_batch(pipes: &[Pipe]) -> Vec<PipeResult> {
     results
 }
 
+/// Source text of a batch of sampled pipelines (used by the rc / arc differential)
+pub fn sample_pipeline_source(data: &[u32]) -> String {
+    let mut s = crate::pgen::Src::new(data);
+    let ads = all_adaptors();
+    let mut src = String::from(PRELUDE);
+    for k in 0..12 {
+        let depth = 1 + s.below(4) as usize;
+        let chain: Vec<Ad> = (0..depth).map(|_| ads[s.below(ads.len() as u32) as usize]).collect();
+        let p = Pipe { src: SOURCES[s.below(SOURCES.len() as u32) as usize], len: s.below(6) as u8, chain: fix_cycle(chain), cons: CONSUMERS[s.below(CONSUMERS.len() as u32) as usize] };
+        src.push_str(&pipe_script(&p, k));
+    }
+    src
+}
+
 fn fix_cycle(chain: Vec<Ad>) -> Vec<Ad> {
     // every cycle is bounded by a take: directly (possibly after element-wise adaptors that cannot
     // spin on an endless input)
